@@ -4,6 +4,7 @@ import (
 	"encoding/json"
 	"fmt"
 	"math"
+	"strings"
 	"testing"
 
 	"pgregory.net/rapid"
@@ -163,6 +164,46 @@ func c11Check(op string, args ...ref.V) string {
 	return ""
 }
 
+// c11CheckSelf applies a binary operator to one value object as both operands
+// (x op x), and to x and a full-range slice of x sharing its storage; the
+// documented result does not depend on the operands being the same object.
+func c11CheckSelf(op string, a ref.V) string {
+	x := run.FromV(a)
+	operands := [][2]value.Type{{x, x}}
+	if _, ok := a.(ref.Arr); ok {
+		n := len(a.(ref.Arr))
+		if sl, err := x.Index(value.NewInt(0), value.NewInt(n)); err == nil {
+			operands = append(operands, [2]value.Type{x, sl}, [2]value.Type{sl, x})
+		}
+	}
+	want, werr := applyRef(op, a, a)
+	for _, pair := range operands {
+		got, err, panicked := applyImpl(op, pair[0], pair[1])
+		if panicked != "" {
+			return "panics: " + panicked
+		}
+		if werr != nil {
+			if err == nil {
+				return fmt.Sprintf("on one object as both operands gives %s, documented: %s", got.String(), werr.Class)
+			}
+			if c := run.Classify(err); !werr.Accepts(c) {
+				return fmt.Sprintf("on one object as both operands fails with %q, documented: %q", c, werr.Class)
+			}
+			continue
+		}
+		if err != nil {
+			return fmt.Sprintf("on one object as both operands fails with %q, documented result %s", run.Classify(err), ref.Str(want))
+		}
+		if (op == "<<" || op == ">>") && !ref.ShiftPinned(a, a) {
+			continue
+		}
+		if gv := run.ToV(got); !ref.Equiv(gv, want) {
+			return fmt.Sprintf("on one object as both operands gives %s, documented %s", ref.Str(gv), ref.Str(want))
+		}
+	}
+	return ""
+}
+
 // implBool applies a relational/equality operator that must succeed.
 func implBool(op string, a, b ref.V) (bool, bool) {
 	v, err, p := applyImpl(op, run.FromV(a), run.FromV(b))
@@ -314,7 +355,7 @@ var c11Reps = map[string][]ref.V{
 	"float":    {0.0, 2.5, math.NaN(), math.Inf(1)},
 	"bool":     {true, false},
 	"string":   {"", "ab"},
-	"array":    {ref.Arr{}, ref.Arr{1, "a", ref.Arr{2.5}}, ref.Arr{ref.Nil{}}},
+	"array":    {ref.Arr{}, ref.Arr{1, "a", ref.Arr{2.5}}, ref.Arr{ref.Nil{}}, ref.Arr{&ref.Fn{}}, ref.Arr{1, ref.Arr{math.NaN()}}},
 	"function": {&ref.Fn{}},
 }
 var c11Kinds = []string{"nil", "int", "float", "bool", "string", "array", "function"}
@@ -330,6 +371,11 @@ func c11Exhaustive(rec *ev.Recorder) string {
 			}
 			if why := c11IndexLaws(a); why != "" {
 				return fmt.Sprintf("%s: %s", renderArgs("index", []ref.V{a}), why)
+			}
+			for _, op := range c11BinOps {
+				if why := c11CheckSelf(op, a); why != "" {
+					return fmt.Sprintf("%s: %s", renderArgs(op, []ref.V{a, a}), why)
+				}
 			}
 			for _, kb := range c11Kinds {
 				for _, b := range c11Reps[kb] {
@@ -370,7 +416,13 @@ func c11Prop(rec *ev.Recorder) func(t *rapid.T) {
 		report := func(op string, args []ref.V, why string) {
 			fail(t, "C11", "tuple", map[string]any{"op": op, "args": encodeVals(args)}, "%s: %s", renderArgs(op, args), why)
 		}
-		switch rapid.IntRange(0, 4).Draw(t, "what") {
+		switch rapid.IntRange(0, 5).Draw(t, "what") {
+		case 5:
+			op := rapid.SampledFrom(c11BinOps).Draw(t, "op")
+			if why := c11CheckSelf(op, a); why != "" {
+				report("self:"+op, []ref.V{a}, why)
+			}
+			rec.Case(renderArgs("self:"+op, []ref.V{a}), true, "same-object")
 		case 0, 1:
 			op := rapid.SampledFrom(c11BinOps).Draw(t, "op")
 			if why := c11Check(op, a, b); why != "" {
@@ -494,13 +546,19 @@ func init() {
 			args = append(args, decodeVal(a))
 		}
 		var why string
+		switch {
+		case strings.HasPrefix(v.Op, "self:"):
+			why = c11CheckSelf(strings.TrimPrefix(v.Op, "self:"), args[0])
+		}
 		switch v.Op {
 		case "laws":
 			why = c11Laws(args[0], args[1])
 		case "indexlaws":
 			why = c11IndexLaws(args[0])
 		default:
-			why = c11Check(v.Op, args...)
+			if !strings.HasPrefix(v.Op, "self:") {
+				why = c11Check(v.Op, args...)
+			}
 		}
 		if why != "" {
 			return renderArgs(v.Op, args) + ": " + why
